@@ -449,7 +449,7 @@ class Script:
 # units/s) times two.  Wall-clock limits are only a safety net, WALL_FACTOR times the nominal budget.
 CVC5_RLIMIT_PER_S = 150000
 Z3_RLIMIT_PER_S = 2000000
-WALL_FACTOR = 8
+WALL_FACTOR = 16
 
 
 def run_solver(text, backend, timeout_s):
